@@ -122,3 +122,13 @@ def rsa_pt(priv, ct):
 
 def keypair(pub, priv):
     return pub.n == priv.n
+
+
+def xview(E, off):
+    """decoded payload of the XorEncoded container at offset off (reference decoder)"""
+    out = bytearray()
+    n = max(len(E) - (off + 8), 0)
+    for i in range(n):
+        k = E[off + i] if i < 4 else E[off + 4 + i]
+        out.append(E[off + 8 + i] ^ k)
+    return bytes(out)
